@@ -127,6 +127,8 @@ def correspondence(ctx):
     # whole enrolments
     scs = [fagen.fa_scenario(r, ctx.tier, jfa=bool(i % 2)) for i in range(ctx.budget(30, 300))]
     iters = [int(r.integers(1, 7)) for _ in scs]
+    for j in range(min(len(scs), ctx.budget(4, 12))):
+        iters[j] = int(r.integers(300, 900))  # "k iterations" means k iterations, also long after the steps have become small
     lines = [{"op": "fa_enroll", **fagen.model_fields(sc), "sts": [fagen.st_line(s) for s in sc["sts"]], "iters": k} for sc, k in zip(scs, iters)]
     for sc, k, o in zip(scs, iters, core.drive(lines)):
         sts = [fagen.mk_stats(sc, s) for s in sc["sts"]]
@@ -177,6 +179,10 @@ def oracle(sc, kmax=6, converge=True):
             return {"sig": "enroll-raises", "what": repr(res)}
         gaps.append(top - log_post(sc, res[0], xs_after(sc, sts, k), res[1]))
     small = 1e-7 * (1 + abs(top))
+    # every sweep contracts the gap by a factor q < 1 (C07_enroll_converges_to_mode): as long as the gap is above rounding level,
+    # 3600 more iterations must make visible progress - an enrolment that stops iterating on its own stalls instead
+    if gaps[1] > 1e-11 * (1 + abs(top)) and gaps[2] >= gaps[1] * (1 - 1e-7):
+        return {"sig": "enrolment-stalls-away-from-the-mode", "what": f"log-posterior gap to the joint mode after 400 and after 4000 iterations: {gaps[1]} and {gaps[2]} (no progress)"}
     if not (gaps[2] <= small or (gaps[2] <= 0.5 * gaps[1] and gaps[1] <= gaps[0] + small)):
         return {"sig": "enrolment-does-not-approach-the-mode", "what": f"log-posterior gap to the joint mode after 40/400/4000 iterations: {gaps}"}
     return None
